@@ -576,6 +576,9 @@ func (ch *Chain) withdrawalEvent(evs []abci.Event) M {
 // ---- projection ----------------------------------------------------------------------------------
 
 func ticks(d time.Duration) any {
+	if d == time.Duration(1<<63-1) { // the clamped "never" of TicksDuration: the smallest tick count that does not fit
+		return int64(d/tickDuration()) + 1
+	}
 	if d%tickDuration() != 0 {
 		return "?" + d.String()
 	}
